@@ -242,7 +242,22 @@ func (s *SpokFile) run(stream iostream.IOStream, runner shell.Runner, force bool
 		return nil, fmt.Errorf("Could not load spok cache file at %q: %s", cachePath, err)
 	}
 
+	// Whether a task has run since the glob patterns were last expanded
+	globsStale := false
+
 	for _, taskToRun := range runOrder {
+		// The commands of an earlier task may have created or removed files that match a
+		// glob pattern, in which case what the patterns expand to has to be worked out again
+		if globsStale {
+			for pattern := range s.Globs {
+				s.Globs[pattern] = nil
+			}
+			if err := s.expandGlobs(); err != nil {
+				return nil, err
+			}
+			globsStale = false
+		}
+
 		// Gather up all the files to be hashed into a single slice
 		var toHash []string
 
@@ -298,6 +313,7 @@ func (s *SpokFile) run(stream iostream.IOStream, runner shell.Runner, force bool
 				}
 			}
 			result, err = taskToRun.Run(runner, stream, s.Env())
+			globsStale = true
 			if err != nil || !result.Ok() {
 				// It did not complete, what it last completed against still stands
 				cachedState.Set(taskToRun.Name, cachedDigest)
